@@ -37,6 +37,7 @@ def run(db, chk) -> None:
     chk.floor("C13.R6-publish-after-build", 3)
     check_recompute_before_publish(db, chk, "C13.R7-recompute-before-publish")
     check_move_is_complete(db, chk, "C13.R8-move-is-complete")
+    _roots(db, chk, cs)
     check_stack_labels(db, chk, "C13.R4-backward-attachment")
     from .c03 import host_rows_complete
     host_rows_complete(db, chk, "C13.R9-tree-complete")          # the attributes are those of the call tree: every host event of the thread must be a node of it
@@ -702,3 +703,22 @@ def check_stack_labels(db, chk, rule: str) -> None:
            found={"(has steps, has autograd) -> label": {str(k): sorted(v) for k, v in sorted(table.items())}, "notes": notes[:2]},
            accepted={"(True, *)": "main", "(False, True)": "bwd", "(False, False)": "neither"},
            why="testing 'bwd' first labels a main thread that carries an autograd:: event as bwd: the real autograd thread is never attached beneath the profiler step and deeper operator instances are counted")
+
+
+def _roots(db, chk, cs):
+    """whole-graph mode starts the depth / height / kernel walks at 'all roots': evaluated on a small node map (thread 1: root -1 with the events 10 > 11; thread 7: root -7 with
+    event 20): the roots are the per-thread root nodes and never an event (the root of thread 1 has the index of the dummy parent, so its top-level events have parent -1 too)"""
+    rule = "C13.R1-depth"
+    fn = cs.functions.get("CallStackGraph._get_all_root_indices")
+    if fn is None:
+        chk.ob(rule, "_get_all_root_indices found", None, CS, found="absent")
+        return
+    nodes = {-1: _node("root1", parent=-1, children=[10]), 10: _node("e10", parent=-1, children=[11]), 11: _node("e11", parent=10, children=[]),
+             -7: _node("root7", parent=-1, children=[20]), 20: _node("e20", parent=-7, children=[])}
+    I = Interp(db)
+    runs = [r for r in I.explore(f"{CS}:CallStackGraph._get_all_root_indices", lambda I: {"self": Obj("self", cls=(cs, "CallStackGraph"), attrs={"nodes": dict(nodes)})}) if r.raised is None]
+    got = runs[0].ret if len(runs) == 1 else None
+    conc = sorted(got) if isinstance(got, list) and all(isinstance(x, int) for x in got) else None
+    chk.ob(rule, "whole-graph walks start at the per-thread root nodes only (never at an event)", (conc == [-7, -1]) if conc is not None else None, cs.loc(fn),
+           found=conc if conc is not None else T.show(to_term(got))[:120], accepted=[-7, -1],
+           why="selecting roots by `parent == NULL_NODE_INDEX` also picks the top-level events of thread 1 (whose root index is -1): every depth on that thread comes out one too small")
